@@ -757,7 +757,9 @@ static void gen_enum_match_handler(fb_output_t *out, fb_compound_type_t *ct, voi
     case fb_int:
     case fb_long:
         if (member->value.i < 0) {
-            println(out, "*value = UINT64_C(%"PRIu64"), *value_sign = 1;", member->value.i);
+            /* The sign is given separately, the value is the magnitude. */
+            println(out, "*value = UINT64_C(%"PRIu64"), *value_sign = 1;",
+                    (uint64_t)0 - (uint64_t)member->value.i);
         } else {
             println(out, "*value = UINT64_C(%"PRIu64"), *value_sign = 0;", member->value.i);
         }
